@@ -92,7 +92,9 @@ def substitute(expression, variable_assignments=None,
     """
     if variable_assignments is None:
         variable_assignments = {}
-    variable_assignments = variable_assignments.copy()
+    # a dict of our own: the caller's mapping may be one that cannot be
+    # updated in place (an immutabledict's update() returns a new mapping)
+    variable_assignments = dict(variable_assignments)
     variable_assignments.update(kwargs)
 
     return mapper_cls(make_subst_func(variable_assignments))(expression)
